@@ -26,8 +26,10 @@ NONE = "~none"
 # ---------------------------------------------------------------------------------------------
 
 
-def fn(name, ins, outs=(), emit=(), wait=()):
-    return {"k": "fn", "name": name, "ins": list(ins), "outs": list(outs), "emit": list(emit), "wait": list(wait)}
+def fn(name, ins, outs=(), emit=(), wait=(), after=()):
+    """after: names of sibling nodes this node is ORDERED after by a declared edge that carries no value
+    (Graph(nodes, edges=[(a, b)]) -- the whole level is then built with a declared topology)."""
+    return {"k": "fn", "name": name, "ins": list(ins), "outs": list(outs), "emit": list(emit), "wait": list(wait), "after": list(after)}
 
 
 def gate(name, ins, targets, gk="ifelse"):
@@ -129,6 +131,10 @@ def declared(desc):
                         for p, rout in leaf_producers(pn, v, nid(pn)):
                             deps.append({"p": p, "c": nid(cn), "kind": "ordering", "val": v, "grp": f"{prefix}|{v}",
                                          "src": nid(pn), "via": nid(cn), "rin": 0, "rout": rout})
+        for cn in ns:
+            for a in cn.get("after", []):
+                deps.append({"p": prefix + a, "c": nid(cn), "kind": "ordering", "val": "", "grp": f"{prefix}|after:{a}>{cn['name']}",
+                             "src": prefix + a, "via": nid(cn), "rin": 0, "rout": 0})
         for gn in ns:
             if gn["k"] == "gate":
                 for t in _uniq(gn["targets"]):
@@ -225,6 +231,17 @@ def build(desc, name=None):
             if d["rout"]:
                 gn = gn.with_outputs(**d["rout"])
             objs.append(gn)
+    if any(d.get("after") for d in desc):
+        # declared topology: every name-matched data edge plus the value-less ordering edges
+        edges = []
+        for pn in desc:
+            for cn in desc:
+                if pn is not cn and set(outs_of(pn)) & set(ins_of(cn)) and (pn["name"], cn["name"]) not in edges:
+                    edges.append((pn["name"], cn["name"]))
+        for cn in desc:
+            for a in cn.get("after", []):
+                edges.append((a, cn["name"]))
+        return Graph(objs, edges=edges, name=name)
     return Graph(objs, name=name)
 
 
@@ -468,7 +485,15 @@ def family_siblings():
     yield [sub("A", [fn("h", ["x"], ["a", "a2"])]), sub("B", [fn("i", ["a"], ["b"])]), sub("C", [fn("j", ["w"], ["c"])], rin={"w": "a2"})], "siblings/fan-out"
 
 
-FAMILIES = [family_consumers, family_producers, family_control, family_ordering, family_inputs, family_renames, family_names, family_siblings]
+def family_declared():
+    """Declared topologies with value-less ordering edges (explicit edges=[(a, b)]), flat and inside a container."""
+    yield [fn("a", ["x"], ["p"]), fn("b", ["y"], ["q"], after=["a"]), fn("c", ["p", "q"], ["r"])], "declared/ordering-flat"
+    yield [fn("a", ["x"], ["p"]), fn("b", ["y"], ["q"], after=["a"])], "declared/ordering-only"
+    yield [sub("A", [fn("a", ["x"], ["p"]), fn("b", ["y"], ["q"], after=["a"])]), fn("c", ["p", "q"], ["r"])], "declared/ordering-nested"
+    yield [fn("s", ["x"], ["v"]), sub("A", [fn("a", ["v"], ["p"]), fn("b", ["v"], ["q"], after=["a"]), fn("d", ["p", "q"], ["t"])])], "declared/ordering-nested-with-data"
+
+
+FAMILIES = [family_consumers, family_producers, family_control, family_ordering, family_inputs, family_renames, family_names, family_siblings, family_declared]
 
 
 class RandomPrograms:
